@@ -13,12 +13,12 @@
 (* An AEAD opens iff key and nonce are those of the sealing (assumption).     *)
 EXTENDS Naturals, Sequences, FiniteSets, TLC
 
-CONSTANTS Positions,   \* set of <<hi, lo>>
+CONSTANTS Positions,   \* sequence of <<hi, lo>>
           Defect       \* "none" | "wrap24" (counter mod 2^24) | "wrap16" (mod 2^16) | "last-overlaps" (flag ORed into the counter's low bit)
 
 (* N in {0, 1, 255, 256, 65535, 65536, 2^24-1, 2^24, 2^24+1, 2^31, 2^32-2, 2^32-1} *)
-AllPositions == {<<0, 0>>, <<0, 1>>, <<0, 255>>, <<0, 256>>, <<0, 65535>>, <<1, 0>>, <<255, 65535>>, <<256, 0>>, <<256, 1>>,
-                 <<32768, 0>>, <<65535, 65534>>, <<65535, 65535>>}
+AllPositions == << <<0, 0>>, <<0, 1>>, <<0, 255>>, <<0, 256>>, <<0, 65535>>, <<1, 0>>, <<255, 65535>>, <<256, 0>>, <<256, 1>>,
+                   <<32768, 0>>, <<65535, 65534>>, <<65535, 65535>> >>
 
 F == INSTANCE EncV1FormatContract
 T == INSTANCE EncTamperContract
@@ -26,7 +26,9 @@ T == INSTANCE EncTamperContract
 VARIABLES s, stage, cf, ct
 vars == <<s, stage, cf, ct>>
 
-Pos == {[hi |-> p[1], lo |-> p[2], last |-> l] : p \in Positions, l \in BOOLEAN}
+NP == Len(Positions)
+PosSeq == [j \in 1..(2 * NP) |-> [hi |-> Positions[((j - 1) % NP) + 1][1], lo |-> Positions[((j - 1) % NP) + 1][2], last |-> j > NP]]
+Pos == {PosSeq[j] : j \in 1..(2 * NP)}
 RefNonce(p) == <<"NP", p.hi, p.lo, p.last>>
 RealNonce(p) ==
   CASE Defect = "none"          -> <<"NP", p.hi, p.lo, p.last>>
@@ -34,11 +36,9 @@ RealNonce(p) ==
     [] Defect = "wrap16"        -> <<"NP", 0, p.lo, p.last>>
     [] Defect = "last-overlaps" -> <<"NP", p.hi, IF p.last THEN (p.lo \div 2) * 2 + 1 ELSE p.lo, FALSE>>
 
-SetToSeq(S) == CHOOSE q \in [1..Cardinality(S) -> S] : \A a, b \in 1..Cardinality(S) : a # b => q[a] # q[b]
+Where(P(_)) == SelectSeq(PosSeq, P)
 RECURSIVE FeedF(_, _)
 FeedF(c, evs) == IF evs = <<>> THEN c ELSE FeedF(F!CNext(c, Head(evs)), Tail(evs))
-RECURSIVE FeedT(_, _)
-FeedT(c, evs) == IF evs = <<>> THEN c ELSE FeedT(T!CNext(c, Head(evs)), Tail(evs))
 
 Init == s \in Pos /\ stage = "call" /\ cf = F!Dummy /\ ct = T!Dummy
 
@@ -47,19 +47,17 @@ Call ==
   /\ cf' = FeedF(cf, <<[ev |-> "reset", len |-> 0, S |-> 65536, tag |-> 16, cipher |-> "AES-GCM", alg |-> "A256KW", keyName |-> "k",
                         decKeyName |-> "", omit |-> FALSE, producer |-> "segfn"],
                        [ev |-> "segn", dir |-> "enc", hi |-> s.hi, lo |-> s.lo, last |-> s.last,
-                        opens |-> SetToSeq({p \in Pos : RefNonce(p) = RealNonce(s)}), same |-> RefNonce(s) = RealNonce(s), plainOK |-> TRUE],
+                        opens |-> Where(LAMBDA p : RefNonce(p) = RealNonce(s)), same |-> RefNonce(s) = RealNonce(s), plainOK |-> TRUE],
                        [ev |-> "segn", dir |-> "dec", hi |-> s.hi, lo |-> s.lo, last |-> s.last,
-                        opens |-> SetToSeq({p \in {s} : RealNonce(p) = RefNonce(s)}), same |-> TRUE, plainOK |-> TRUE],
+                        opens |-> IF RealNonce(s) = RefNonce(s) THEN <<s>> ELSE <<>>, same |-> TRUE, plainOK |-> TRUE],
                        [ev |-> "end"]>>)
-  /\ ct' = FeedT(ct, <<[ev |-> "reset", class |-> "segment-position", len |-> 0, mutated |-> TRUE, headerOnly |-> FALSE]>>
-                     \o [j \in 1..Cardinality(Pos) |->
-                           LET p == SetToSeq(Pos)[j] IN
-                           [ev |-> "openat", shi |-> s.hi, slo |-> s.lo, slast |-> s.last, hi |-> p.hi, lo |-> p.lo, last |-> p.last,
-                            ok |-> RealNonce(p) = RealNonce(s), wrote |-> 0]]
-                     \o [j \in 1..Cardinality(Pos) |->
-                           LET p == SetToSeq(Pos)[j] IN
-                           [ev |-> "openat", shi |-> s.hi, slo |-> s.lo, slast |-> s.last, hi |-> p.hi, lo |-> p.lo, last |-> p.last,
-                            ok |-> RealNonce(p) = RefNonce(s), wrote |-> 0]])
+  /\ LET c0 == T!CReset([class |-> "segment-position", len |-> 0, mutated |-> TRUE, headerOnly |-> FALSE])
+         \* events 1..2NP: sealed by the real encryptor; 2NP+1..4NP: sealed by the README implementation
+         OpenAt(j) == LET p == PosSeq[((j - 1) % (2 * NP)) + 1] IN
+                      [ev |-> "openat", shi |-> s.hi, slo |-> s.lo, slast |-> s.last, hi |-> p.hi, lo |-> p.lo, last |-> p.last,
+                       ok |-> RealNonce(p) = (IF j <= 2 * NP THEN RealNonce(s) ELSE RefNonce(s)), wrote |-> 0]
+         bads == {j \in 1..(4 * NP) : T!IsBad(T!CNext(c0, OpenAt(j)))}          \* the law is per event
+     IN ct' = IF bads = {} THEN c0 ELSE T!CNext(c0, OpenAt(CHOOSE j \in bads : \A k \in bads : j <= k))
 
 Spec == Init /\ [][Call]_vars
 FormatHolds == ~F!IsBad(cf)
